@@ -204,7 +204,7 @@ pub fn spec_c05() -> PropSpec {
         id: "C05",
         profile: pf,
         tape_len: 500,
-        make: || vec![Box::new(ValueOracle::new()), Box::new(super::c03::Justify::new()), Box::new(LruModel::new())],
+        make: || vec![Box::new(super::c06::Aux(Box::new(ValueOracle::new()))), Box::new(super::c06::Aux(Box::new(super::c03::Justify::new()))), Box::new(LruModel::new())],
         nt_rule: "",
     }
 }
